@@ -58,7 +58,20 @@ CheckInput(v) ==
           \cup (IF \E id \in Ids(v) : id \notin {"", v.rid} THEN {"ReplyEchoesId"} ELSE {})
           \cup (IF Stage(v) = "handler" /\ v.rid # "" /\ Codes(v) # {} /\ v.rid \notin Ids(v) THEN {"ReplyEchoesId"} ELSE {}))
 
+\* op = "race": session A's {sub} (id arid) was held inside topicInit while session B sent requests (ids brids) for the same
+\* topic; afr / bfr = the {ctrl}/{meta} frames A and B received.  Every request with an id is answered with ITS id, and
+\* nobody receives a reply carrying an id that is not its own.
+FrIds(fr) == {f.id : f \in {g \in S(fr) : g.k # "raw"}}
+CheckRace(v) ==
+  (IF ~v.alive \/ v.panic THEN {"ProcessAlive"} ELSE {})
+  \cup (IF v.hung THEN {"RequestAnswered"} ELSE {})
+  \cup (IF ~v.alive \/ v.panic \/ v.hung THEN {} ELSE
+          (IF v.arid \notin FrIds(v.afr) \/ (\E r \in S(v.brids) : r \notin FrIds(v.bfr)) THEN {"RequestAnswered"} ELSE {})
+          \cup (IF (\E id \in FrIds(v.afr) : id \notin {"", v.arid}) \/ (\E id \in FrIds(v.bfr) : id \notin ({""} \cup S(v.brids)))
+                THEN {"ReplyEchoesId"} ELSE {}))
+
 Check(v) == CASE v.op = "input"   -> CheckInput(v)
+              [] v.op = "race"    -> CheckRace(v)
               [] v.op = "preview" -> (IF v.panic THEN {"ProcessAlive"} ELSE {}) \cup (IF v.hung THEN {"RequestAnswered"} ELSE {})
               [] OTHER            -> {}
 
